@@ -89,7 +89,7 @@ func NewSim(t *Tape) *Sim {
 		MaxVTime: 48 * time.Hour,
 		Start:    time.Now(),
 		hash:     fnvOff,
-		TraceMax: 4000,
+		TraceMax: 200000,
 		Faults:   map[string]int{},
 		Probes:   map[string]int{},
 	}
